@@ -145,7 +145,7 @@ def run_impl(binary, scn, strace=None, inject=None, timeout=20, with_mtime=False
         cmd = []
         tracef = os.path.join(root, "trace")
         if strace or inject:
-            cmd = ["strace", "-f", "-qq", "-o", tracef, "-s", "0", "-e", "trace=%s" % (strace or "all")]
+            cmd = ["strace", "-f", "-qq", "-y", "-o", tracef, "-s", "0", "-e", "trace=%s" % (strace or "all")]
             if inject:
                 cmd += ["-e", "inject=" + inject]
             if not as_root:
